@@ -317,6 +317,18 @@ class PCtx:
     def inv(self, b):
         if b.is_const() and b.cval() != 0:
             return Poly.const(1 / Fraction(b.cval()))
+        if len(b.t) == 1:
+            # reciprocal of a monomial is the product of the reciprocals of its atoms: canonical and lets inv(inv(q)) -> q
+            (m, c), = b.t.items()
+            if len(m) > 1 or (len(m) == 1 and atom_key(m[0])[0] == 'inv'):
+                r = Poly.const(1 / Fraction(c))
+                for a in m:
+                    k = atom_key(a)
+                    if k[0] == 'inv':
+                        r = r * k[1][1]
+                    else:
+                        r = r * self._fatom('inv', ('P', Poly({(a,): Fraction(1)})))
+                return r
         # factor out the content so that inv(2*p) == (1/2) inv(p)
         if b.t:
             lead = b.t[min(b.t)]
